@@ -39,7 +39,8 @@ REQUIRED_MONITORS = ["inside-point-is-located", "located-cell-contains-point", "
                      "interpolator-shapes", "repeated-permuted-points", "one-point-at-a-time"]
 REQUIRED_REACH = ["point:vertex", "point:facet", "point:interior", "point:hole", "point:outside-box",
                   "finder-fallback-search-all", "vector-valued-element", "tensor-valued-element", "coefficient-dtypes",
-                  "single-point-sequence", "query-array-updated-in-place", "more-than-2^14-points", "offset-along-one-axis"]
+                  "single-point-sequence", "query-array-updated-in-place", "more-than-2^14-points", "offset-along-one-axis",
+                  "restricted-basis-probed", "batch-with-one-outside-point", "global-element-probed"]
 
 F = Fraction
 
@@ -394,10 +395,17 @@ def own_evaluate(basis, rec, cells, x, y):
 def probes_case(ctx, k, kind):
     import skfem
     rng = ctx.rng()
-    recs = [r for r in EL.all_for_kind(kind, wrappers=True) if not r.skeleton and r.mesh_req == "any"
-            and not r.name.startswith("Composite(")]
+    recs = [r for r in EL.all_for_kind(kind, wrappers=True) if not r.skeleton and not r.name.startswith("Composite(")
+            and (r.mesh_req == "any" or (r.family == "global" and kind in ("line", "tri", "quad")))]
     rec = recs[k % len(recs)]
-    mc = gen_mesh(ctx, rng, kind, 0)
+    glob = rec.family == "global"
+    if glob:
+        # globally defined elements on the unit-scale meshes their monomial expansion is accurate on
+        from .c09 import wellshaped
+        mc = wellshaped(rng, kind, rec.mesh_req == "axis-parallel")
+        ctx.reached("global-element-probed")
+    else:
+        mc = gen_mesh(ctx, rng, kind, int(rng.integers(0, 20)))      # graded, offset and scaled meshes too
     mesh = mc.mesh
     if kind == "hex" and not mc.planar_faces:
         raise Skip("nonplanar")
@@ -428,26 +436,59 @@ def probes_case(ctx, k, kind):
     ctx.check("interpolator-shapes", Pm.shape == (ncomp * x.shape[1], basis.N), mech=f"probes-shape:{base}",
               shape=Pm.shape, **tag)
     scale = float(np.abs(ref).max()) + float(np.abs(y).max()) * 1e-3
-    ctx.close("probes-equal-local-expansion", np.asarray(got).reshape(tshape + (x.shape[1],)), ref, rtol=1e-9,
+    hmin = float((P[:, T].max(axis=1) - P[:, T].min(axis=1)).max(axis=0).min())
+    # pulled-back points carry the rounding of the coordinates: eps |x| / h (meshes far from the origin)
+    rt = (1e-5 if glob else 1e-9) + 256 * 2.3e-16 * float(np.abs(P).max()) / hmin * max(1, getattr(rec.make(), "maxdeg", 1))
+    ctx.close("probes-equal-local-expansion", np.asarray(got).reshape(tshape + (x.shape[1],)), ref, rtol=rt,
               scale=scale, mech=f"probes:{base}", **tag)
     f = basis.interpolator(y)
     v = f(x)
     ctx.check("interpolator-shapes", v.shape == tshape + (x.shape[1],), mech=f"interpolator-shape:{base}",
               shape=v.shape, want=tshape + (x.shape[1],), **tag)
-    ctx.close("probes-equal-local-expansion", v, ref, rtol=1e-9, scale=scale, mech=f"interpolator:{base}", **tag)
+    ctx.close("probes-equal-local-expansion", v, ref, rtol=rt, scale=scale, mech=f"interpolator:{base}", **tag)
+    # a basis restricted to a subset of the cells evaluates the same function at points of that subset
+    if nt >= 3 and not glob:
+        S = np.sort(rng.choice(nt, size=max(2, nt // 2), replace=False)).astype(np.int32)
+        inS = np.isin(cells, S)
+        if inS.any():
+            bS = skfem.CellBasis(mesh, rec.make(), elements=S)
+            try:
+                gS = np.asarray(bS.probes(x[:, inS]) @ y).reshape(tshape + (int(inS.sum()),))
+                ctx.close("probes-equal-local-expansion", gS, ref[..., inS], rtol=rt, scale=scale,
+                          mech="probes-on-basis-restricted-to-a-cell-subset", subset=int(S.size), **tag)
+            except IndexError as e:
+                ctx.check("probes-equal-local-expansion", False, mech="probes-on-basis-restricted-to-a-cell-subset",
+                          error=repr(e)[:200], **tag)
+            ctx.reached("restricted-basis-probed")
+    # a batch that contains one point outside the mesh raises, wherever that point stands in the batch
+    if d >= 1 and x.shape[1] >= 2:
+        lo, hi = P.min(axis=1), P.max(axis=1)
+        xo = hi + (hi - lo).max() * 0.37 + 1.0
+        pos = int(rng.integers(0, x.shape[1] + 1))
+        xb = np.insert(x, pos, xo, axis=1)
+        for nm, call in (("finder", lambda: mesh.element_finder()(*xb)), ("probes", lambda: basis.probes(xb)),
+                         ("interpolator", lambda: f(xb))):
+            try:
+                call()
+                raised = False
+            except Exception:
+                raised = True
+            ctx.check("outside-point-raises", raised, mech=f"outside-point-in-a-batch-not-reported:{nm}", position=pos,
+                      batch=int(xb.shape[1]), **tag)
+        ctx.reached("batch-with-one-outside-point")
     # trailing axes
     if x.shape[1] >= 4 and not tshape:
         x4 = x[:, :4].reshape(d, 2, 2)
         v4 = f(x4)
         ctx.check("interpolator-shapes", v4.shape == (2, 2), mech=f"interpolator-trailing-axes:{base}", shape=v4.shape, **tag)
-        ctx.close("probes-equal-local-expansion", v4.ravel(), ref[:4], rtol=1e-9, scale=scale,
+        ctx.close("probes-equal-local-expansion", v4.ravel(), ref[:4], rtol=rt, scale=scale,
                   mech=f"interpolator-trailing:{base}", **tag)
     # coefficient vectors of other dtypes denote the same discrete function
     for how, yy in (("int", np.round(4 * y).astype(np.int64)), ("bool", y > 0), ("float32", y.astype(np.float32))):
         refy = own_evaluate(basis, rec, cells, x, yy.astype(np.float64))
         vy = basis.interpolator(yy)(x)
         ctx.close("probes-equal-local-expansion", np.asarray(vy, dtype=np.float64), refy,
-                  rtol=1e-9 if how != "float32" else 1e-6, scale=float(np.abs(refy).max()) + float(np.abs(yy).max()) * 1e-3,
+                  rtol=rt if how != "float32" else max(rt, 1e-6), scale=float(np.abs(refy).max()) + float(np.abs(yy).max()) * 1e-3,
                   mech=f"interpolator-coefficient-dtype:{how}", coefficients=how, **tag)
     ctx.reached("coefficient-dtypes")
     # one point at a time on the same basis object, among them points on the edges of one cell (reference
@@ -477,9 +518,9 @@ def probes_case(ctx, k, kind):
         refj = own_evaluate(basis, rec, cl, xj, y)
         gj = np.asarray(basis.probes(xj) @ y).reshape(tshape + (1,))
         vj = fint(xj)
-        ctx.close("one-point-at-a-time", gj, refj, rtol=1e-9, scale=scale, mech=f"probes-single-point-sequence:{base}",
+        ctx.close("one-point-at-a-time", gj, refj, rtol=rt, scale=scale, mech=f"probes-single-point-sequence:{base}",
                   ref_point=Xj, cell=int(cl[0]), **tag)
-        ctx.close("one-point-at-a-time", vj, refj, rtol=1e-9, scale=scale, mech=f"interpolator-single-point-sequence:{base}",
+        ctx.close("one-point-at-a-time", vj, refj, rtol=rt, scale=scale, mech=f"interpolator-single-point-sequence:{base}",
                   ref_point=Xj, cell=int(cl[0]), **tag)
     ctx.reached("single-point-sequence")
     # the caller's query array updated in place between two calls
@@ -490,7 +531,7 @@ def probes_case(ctx, k, kind):
     try:
         ca = np.asarray(finder(*xa))
         ctx.close("probes-equal-local-expansion", np.asarray(basis.probes(xa) @ y).reshape(tshape + (xa.shape[1],)),
-                  own_evaluate(basis, rec, ca, xa, y), rtol=1e-9, scale=scale, mech="probes-query-array-updated-in-place", **tag)
+                  own_evaluate(basis, rec, ca, xa, y), rtol=rt, scale=scale, mech="probes-query-array-updated-in-place", **tag)
         ctx.reached("query-array-updated-in-place")
     except ValueError:
         ctx.drop("updated-point-not-located")
@@ -502,7 +543,7 @@ def probes_case(ctx, k, kind):
                          np.asarray(basis.dofs.element_dofs)[:, cells[0]]])
         ref_row = np.zeros(basis.N)
         np.add.at(ref_row, np.asarray(basis.dofs.element_dofs)[:, cells[0]], want)
-        ctx.close("point-source-row", ps, ref_row, rtol=1e-9, scale=float(np.abs(ref_row).max()) + 1e-300,
+        ctx.close("point-source-row", ps, ref_row, rtol=rt, scale=float(np.abs(ref_row).max()) + 1e-300,
                   mech=f"point-source:{base}", **tag)
     # at the basis' own quadrature points probes == interpolate
     gx = np.array(basis.global_coordinates())  # (d, nt, nq)
@@ -512,7 +553,7 @@ def probes_case(ctx, k, kind):
         vq = basis.interpolator(y)(xq)
         uq = basis.interpolate(y)
         uq = np.array(uq)[..., sub, :].reshape(tshape + (-1,))
-        ctx.close("probes-at-quadrature-equal-interpolate", vq, uq, rtol=1e-8, scale=float(np.abs(uq).max()) + 1e-12,
+        ctx.close("probes-at-quadrature-equal-interpolate", vq, uq, rtol=max(1e-8, 10 * rt), scale=float(np.abs(uq).max()) + 1e-12,
                   mech=f"probes-vs-interpolate:{base}", **tag)
     except ValueError as e:
         if "outside of the mesh" in str(e):
